@@ -41,6 +41,11 @@
 //!                  bmp-in unit started by a reload is a new source: it is named k<8*g + k> where g = how many bmp-in units were
 //!                  started before that one. `C k` while the unit of router k does not run is skipped.
 //!   JL u           GET the router list of ingress unit u (0: /routers/, 1: /routers2/): r:<routers listed>, r:- when nothing answers there
+//!   C2 k           router k opens a SECOND connection while its first one is still open (a router that rebooted: the collector's old
+//!                  connection is half-open). The first one stays open and silent from then on; what the ops address is the new one.
+//!                  As `C k` when k is not connected; skipped while an old connection of k is still parked.
+//!   X2 k           the OLD (parked) connection of router k is closed at last
+//!   RL             GET /routers/: r:<routers listed>
 //!   BO k           (BGP cases: a case with one of the B? ops has a `bgp-tcp-in` unit `bgp-in` that the RIB units source too.) A BGP speaker
 //!                  with source address 127.0.0.<30+k> (k = 0..4; AS 65100+k) connects to the unit, sends OPEN, and - when the unit answers
 //!                  with its OPEN - KEEPALIVE, and waits for the unit's KEEPALIVE: o:<my_asn variant>,<hold time> as read from the unit's
@@ -199,6 +204,8 @@ pub struct World {
     pub http_port: u16,
     spare_ports: Vec<u16>,
     pub conns: BTreeMap<u32, Conn>,
+    parked: BTreeMap<u32, Conn>,     // the old connection of a router that has opened a second one (C2): open, silent
+    ghosts: Vec<u32>,                // routers whose OLD connection ended after the new one was up (X2)
     accepted: [u64; 2],              // per ingress unit (counters of the unit that runs under that name now)
     lost: [u64; 2],
     binds: [u64; 2],
@@ -409,7 +416,7 @@ impl World {
         };
         let mut w = World {
             rt: Some(rt), mgr, bmp_port: ports[0], http_port: ports[1], spare_ports: ports[2..4].to_vec(),
-            conns: BTreeMap::new(), accepted: [0; 2], lost: [0; 2], binds: [1; 2], two, bmp2_port: ports[5], running: [true, two], gen: 0, reloaded: false, variant: 0, ids_of: BTreeMap::new(), rids: BTreeMap::new(), notes: vec![], stalled: None,
+            conns: BTreeMap::new(), parked: BTreeMap::new(), ghosts: vec![], accepted: [0; 2], lost: [0; 2], binds: [1; 2], two, bmp2_port: ports[5], running: [true, two], gen: 0, reloaded: false, variant: 0, ids_of: BTreeMap::new(), rids: BTreeMap::new(), notes: vec![], stalled: None,
             dir, desired, bgp_port: ports[4], wedged: false, hold_next: false,
             bgp: if bgp { Some(BgpSide { port: ports[6], desired: bgp_cfg, loaded: bgp_cfg, conns: BTreeMap::new(), accepted: 0, updates: 0, seen: BTreeMap::new() }) } else { None },
         };
@@ -422,6 +429,7 @@ impl World {
 
     pub fn stop(mut self) {
         self.conns.clear();
+        self.parked.clear();
         if let Some(b) = self.bgp.as_mut() { b.conns.clear(); }
         // Manager::terminate waits, spinning, until every unit has closed its command channel. A case that stalled may have
         // left a unit that no longer takes commands (that is what the stall reports): then the runtime is dropped with its tasks.
@@ -513,9 +521,13 @@ impl World {
         for u in 0..2 {
             if !self.running[u] { continue; }
             let want = self.conns.values().filter(|c| c.unit == u).count() as u64;
+            // (two connections of one address: how many rows they make is what the case observes - op RL, `G` - the barrier only needs
+            // the list to be rendered, which takes the locks of the sessions it shows)
+            let more = self.parked.values().filter(|c| c.unit == u).count() as u64;
+            let less = if u == 0 { self.ghosts.len() as u64 } else { 0 };
             let t0 = Instant::now();
             loop {
-                if self.routers_listed(u) == Some(want) { break; }
+                if matches!(self.routers_listed(u), Some(n) if n + less >= want && n <= want + more) { break; }
                 if t0.elapsed() > Duration::from_millis(if self.stalled.is_some() { 50 } else { STALL_MS }) {
                     if self.stalled.is_none() { self.stalled = Some(format!("router list does not show {want} routers")); }
                     return;
@@ -560,13 +572,18 @@ impl World {
         // the router list names the id the accept loop gave this router: the one no other open connection has
         let others: Vec<u32> = self.conns.values().filter_map(|c| c.rid).collect();
         let fresh: Vec<u32> = self.listed_ids(u).into_iter().filter(|i| !others.contains(i)).collect();
-        let rid = if fresh.len() == 1 { Some(fresh[0]) } else { None };
+        // (a second connection of this address: the list shows the id both share - or the old one's and a new one)
+        let old_rid = self.parked.get(&k).and_then(|c| c.rid);
+        let rid = if fresh.len() == 1 { Some(fresh[0]) } else if fresh.len() == 2 && old_rid.map(|o| fresh.contains(&o)).unwrap_or(false) { fresh.iter().copied().find(|i| Some(*i) != old_rid) } else { None };
         if let Some(r) = rid {
             self.rids.insert(r, self.name_key(k));
             let ids = self.ids_of.entry(k).or_default();
             if !ids.contains(&r) { ids.push(r); }
         }
-        self.conns.insert(k, Conn { stream, written: 0, rid, counts: vec![0; TEMPLATES.len()], shown: None, unit: u });
+        // the per-router counters belong to the router id: a second connection under the same id goes on counting where the first is
+        let mut c = Conn { stream, written: 0, rid, counts: vec![0; TEMPLATES.len()], shown: None, unit: u };
+        if self.parked.contains_key(&k) { self.rebase(&mut c); }
+        self.conns.insert(k, c);
         if self.reloaded {
             // nothing says that a silent connection is being served; after a reload give the unit a moment to drop it
             let t0 = Instant::now();
@@ -621,11 +638,53 @@ impl World {
             }
         }
         self.reap(&text);
+        // a router the list does not show (see close_parked): no lock to wait on - a moment for the update to pass the gate
+        if self.ghosts.contains(&k) { std::thread::sleep(Duration::from_millis(10)); }
         self.barrier();
         self.metrics()
     }
 
+    fn rebase(&self, c: &mut Conn) {
+        let text = self.metrics();
+        c.written = 0;
+        for (v, n) in World::received(&text, c.rid, c.unit) { c.counts[v] = n; c.written += n; }
+    }
+
+    /// C2 k: a second connection of router k while the first one is open
+    fn connect_second(&mut self, k: u32) {
+        if !self.conns.contains_key(&k) { return self.connect(k); }
+        if self.parked.contains_key(&k) { return; }
+        let old = self.conns.remove(&k).unwrap();
+        self.parked.insert(k, old);
+        self.connect(k);
+    }
+
+    /// X2 k: the old connection of router k ends
+    fn close_parked(&mut self, k: u32) {
+        let Some(c) = self.parked.remove(&k) else { return };
+        let u = c.unit;
+        let sent = |t: &str| metric_sum(t, "num_updates_total", &[("component", UNITS[u])]).unwrap_or(0);
+        let sent_before = sent(&self.metrics());
+        let _ = c.stream.shutdown(std::net::Shutdown::Both);
+        drop(c);
+        self.lost[u] += 1;
+        let want = self.lost[u];
+        self.wait_metrics("old connection lost", |t| metric_sum(t, "bmp_tcp_in_connection_lost_count_total", &[("component", UNITS[u])]) == Some(want));
+        let t0 = Instant::now();
+        while sent(&self.metrics()) < sent_before + 2 && t0.elapsed() < Duration::from_millis(50) { std::thread::sleep(Duration::from_micros(200)); }
+        // give the task of the old connection the moment it needs for its last two lines (router_states / router_info)
+        std::thread::sleep(Duration::from_millis(5));
+        if let Some(mut c) = self.conns.remove(&k) {
+            if !self.ghosts.contains(&k) { self.ghosts.push(k); }
+            // (its clean-up dropped the counters of the router id)
+            self.rebase(&mut c);
+            self.conns.insert(k, c);
+        }
+        self.barrier();
+    }
+
     pub fn disconnect(&mut self, k: u32) {
+        self.ghosts.retain(|x| *x != k);
         let u = self.conns.get(&k).unwrap().unit;
         let sent = |t: &str| metric_sum(t, "num_updates_total", &[("component", UNITS[u])]).unwrap_or(0);
         let sent_before = sent(&self.metrics());
@@ -926,7 +985,7 @@ fn is_bgp_case(all: &[Vec<&str>]) -> bool { all.iter().any(|o| matches!(o[0], "B
 /// the case has a second ingress unit)
 fn startup_of(all: &[Vec<&str>]) -> (bool, u32, u32, usize, bool, bool) {
     let two = all.iter().any(|o| matches!(o[0], "J" | "JL"));
-    let files = two || is_bgp_case(all) || all.iter().any(|o| matches!(o[0], "F" | "FH" | "W" | "Y" | "K"));
+    let files = two || is_bgp_case(all) || all.iter().any(|o| matches!(o[0], "C2" | "X2" | "RL")) || all.iter().any(|o| matches!(o[0], "F" | "FH" | "W" | "Y" | "K"));
     let (mut script, mut vribs, mut lead) = (0, 0, 0);
     let mut hold = false;
     for (i, o) in all.iter().enumerate() {
@@ -944,6 +1003,7 @@ fn startup_of(all: &[Vec<&str>]) -> (bool, u32, u32, usize, bool, bool) {
 pub fn run_case(line: &str) -> String {
     let all = ops(line);
     let (files, startup, vribs, lead, two, hold) = startup_of(&all);
+    let dup = all.iter().any(|o| matches!(o[0], "C2" | "X2" | "RL"));
     let bgp = is_bgp_case(&all);
     let mut w = World::start_with(files, startup, vribs, two, hold, bgp);
     let mut out: Vec<String> = vec![];
@@ -957,6 +1017,9 @@ pub fn run_case(line: &str) -> String {
                 if !w.conns.contains_key(&k) { w.connect(k); }
                 out.push("-".into());
             }
+            "C2" => { w.connect_second(n(1)); out.push("-".into()); }
+            "X2" => { w.close_parked(n(1)); out.push("-".into()); }
+            "RL" => out.push(match w.routers_listed(0) { Some(c) => format!("r:{c}"), None => "r:?".into() }),
             "I" | "T" | "S" | "U" | "D" | "R" | "E" | "B" => {
                 let k = n(1);
                 out.push("-".into());
@@ -1057,7 +1120,7 @@ pub fn run_case(line: &str) -> String {
                 if t == "v:STALL" { ended = true; w.wedged = true; }
                 out.push(t);
             }
-            "M" if w.two => { out.push("-".into()); out.push("-".into()); }
+            "M" if w.two || dup => { out.push("-".into()); out.push("-".into()); }
             "M" => {
                 let k = n(1);
                 let text = w.metrics();
